@@ -21,7 +21,29 @@ def _bridge():
     return m
 
 
-def _inpkg():
+def bridges_of(pkg):
+    """Names of the zzverif bridge packages in the import closure of harness package pkg ('./cmd/c02')."""
+    import re
+    seen, todo, out = set(), [os.path.normpath(os.path.join(H, pkg))], set()
+    while todo:
+        d = todo.pop()
+        if d in seen or not os.path.isdir(d):
+            continue
+        seen.add(d)
+        for f in glob.glob(os.path.join(d, '*.go')):
+            if f.endswith('_test.go'):
+                continue
+            for imp in re.findall(r'"((?:verifh|github\.com/tencent/goom/zzverif)/[^"]+)"', open(f).read()):
+                if imp.startswith('verifh/'):
+                    todo.append(os.path.join(H, imp[len('verifh/'):]))
+                else:
+                    name = imp.split('/zzverif/')[1].split('/')[0]
+                    out.add(name)
+                    todo.append(os.path.join(H, 'bridge', name))
+    return out
+
+
+def _inpkg(only=None):
     m = {}
     for d in sorted(glob.glob(os.path.join(H, 'inpkg', '*'))):
         if not os.path.isdir(d):
@@ -30,18 +52,22 @@ def _inpkg():
         if rel == 'ROOT':
             rel = ''
         for f in sorted(glob.glob(os.path.join(d, '*.go'))):
+            name = os.path.basename(f)[:-3]
+            if only is not None and name != 'base' and name not in only:
+                continue  # in-package exports of a bridge this binary does not import: keep its build independent of them
             m[os.path.join(rel, 'zz_verif_' + os.path.basename(f))] = f
     return m
 
 
-def generate(kind, builddir, repo=REPO):
+def generate(kind, builddir, repo=REPO, pkg=None):
     rep = {}
-    for k, v in list(_bridge().items()) + list(_inpkg().items()):
+    only = bridges_of(pkg) if pkg else None
+    for k, v in list(_bridge().items()) + list(_inpkg(only).items()):
         rep[os.path.join(repo, k)] = v
     if kind == 'shim':
         import shimgen
         rep.update(shimgen.generate(builddir, repo))
-    path = os.path.join(builddir, 'overlay-%s.json' % kind)
+    path = os.path.join(builddir, 'overlay-%s%s.json' % (kind, '-' + os.path.basename(pkg) if pkg else ''))
     tmp = path + '.%d.tmp' % os.getpid()
     json.dump({'Replace': rep}, open(tmp, 'w'), indent=1)
     os.replace(tmp, path)
